@@ -484,7 +484,25 @@ fn one_case(r: &mut Rng, id: usize, out: &mut String, big: bool) {
             let k = gen_dim(r);
             let p = gen_poly(r, n, 6);
             let fo = if mal { other_dim(r, n) } else { n };
-            let f = gen_aff(r, fo, k, 4);
+            // structured maps that an implementation may special-case: pure translations (identity matrix),
+            // signed permutations, diagonal scalings, projections / embeddings with zero columns
+            let f = if !mal && n > 0 && r.chance(1, 3) {
+                let mat = match r.below(3) {
+                    0 => Array2::<f64>::eye(n),
+                    1 => gen_signed_perm(r, n),
+                    _ => {
+                        let mut d = Array2::<f64>::zeros((n, n));
+                        for i in 0..n {
+                            d[[i, i]] = [1.0, 2.0, 0.5, -1.0, 0.0][r.below(5)];
+                        }
+                        d
+                    }
+                };
+                let bias = if r.chance(1, 4) { Array1::<f64>::zeros(n) } else { gen_vec(r, n, 8) };
+                AffFunc::from_mats(mat, bias)
+            } else {
+                gen_aff(r, fo, k, 4)
+            };
             args.push(sx_poly(&p));
             args.push(sx_aff(&f));
             if r.chance(1, 2) {
